@@ -592,6 +592,127 @@ example : (getBlob (windowFlush (createD 16) exW0 exWSteps).1.blobs 2).map (·.n
 example : (getBlob (applyWrites (windowFlush (createD 16) exW0 exWSteps).1
       (wrapperWrites (windowFlush (createD 16) exW0 exWSteps).2)).blobs 2).map (·.nbrs) = some [[1, 1]] := by decide
 
+/-! ## purge after a torn flush never deletes a live vector -/
+
+/-- `purge_removed_nodes` decides by tombstone set AND node map (`Gen.HnswOrder.gen_purge_rule`): in ANY
+state — in particular right after loading the leftovers of a torn flush, where the older metadata's
+tombstones may name ids that are live in the newer ids object — the blob of every id that has a node
+survives the purge, whatever the tombstone set says. -/
+theorem purge_never_deletes_live (D : Durable) (s : Index) (i : Nat) (n : Node) (h : getNode s.nodes i = some n) :
+    getBlob (applyWrites D (purgeWrites s)).blobs i = getBlob D.blobs i ∧ Write.del i ∉ purgeWrites s :=
+  ⟨purge_keeps_live_blob D s i n h, purge_skips_live_tombstone s i (by simp [h])⟩
+
+theorem idsSync_mut {s : Index} (hs : IdsSync s) (m : Mut) : IdsSync (applyMut s m) := by
+  cases m with
+  | ins id node edits pick valid => exact (hnsw_spec_insert s hs id node edits pick valid).2.2.2
+  | rem id pick relink => exact (hnsw_spec_remove s hs id pick relink).2.2
+
+theorem idsSync_runWindow : ∀ (steps : List WStep) (D : Durable) (s : Index) (rem : List Write),
+    IdsSync s → IdsSync (runWindow steps D s rem).2.1 := by
+  intro steps
+  induction steps with
+  | nil => intro D s rem h; exact h
+  | cons st r ih =>
+    intro D s rem h
+    cases st with
+    | write =>
+      cases rem with
+      | nil => exact ih D s [] h
+      | cons w rem' => exact ih (applyWrite D w) s rem' h
+    | mutate m => exact ih D (applyMut s m) rem (idsSync_mut h m)
+
+/-- id set = node map keys in every state of every history (windowed flushes and loads from any
+durable state included) -/
+theorem reachableW_idsSync (D : Durable) (s : Index) (h : ReachW D s) : IdsSync s := by
+  induction h with
+  | create mls => intro i; simp [createS, keys]
+  | mutate m _ ih => exact idsSync_mut ih m
+  | flush _ ih =>
+    intro i
+    have hn : ∀ s : Index, (afterFlush s).nodes = s.nodes ∧ (afterFlush s).ids = s.ids := by
+      intro s; unfold afterFlush; split <;> exact ⟨rfl, rfl⟩
+    rw [(hn _).1, (hn _).2]
+    exact ih i
+  | window steps _ ih =>
+    unfold windowFlush
+    split
+    · exact idsSync_runWindow steps _ _ _ ih
+    · rename_i D0 s0 _ _ sn _
+      intro i
+      have := idsSync_runWindow steps D0 s0 sn.writes ih i
+      simpa [commit] using this
+  | load D' pick s' hl => exact hnsw_spec_load D' pick s' hl
+
+/-- **Second boot keeps every live vector.**  From ANY reachable state (e.g. the index loaded from a
+flush torn after the ids PUT and before the metadata PUT, then re-indexed idempotently so that stale
+tombstones of live ids are still set): after an ordinary flush + purge, a further `load_all` holds
+exactly the same id set, and every id's node is the in-memory node. -/
+theorem second_boot_keeps_all (D : Durable) (s : Index) (h : ReachW D s) (pick : Nat × Nat) (s' : Index)
+    (hl : load (applyWrites D (wrapperWrites s)) pick = .ok s') :
+    s'.ids = s.ids ∧ ∀ i ∈ s.ids, ∃ n, getNode s.nodes i = some n ∧ getNode s'.nodes i = some n := by
+  obtain ⟨hexact, hids⟩ := quiescent_flush_exact D s h
+  have hsync := reachableW_idsSync D s h
+  have hn : (afterFlush s).nodes = s.nodes ∧ (afterFlush s).ids = s.ids := by
+    unfold afterFlush; split <;> exact ⟨rfl, rfl⟩
+  rw [hn.1] at hexact
+  rw [hn.2] at hids
+  have hinv := load_inv hl
+  have hnode : ∀ i ∈ s.ids, ∃ n, getNode s.nodes i = some n := by
+    intro i hi
+    have := getNode_isSome_iff.mpr ((hsync i).mp hi)
+    cases hg : getNode s.nodes i with
+    | none => simp [hg] at this
+    | some n => exact ⟨n, rfl⟩
+  have hcov : Cov (applyWrites D (wrapperWrites s)) := by
+    intro i hi
+    rw [hids] at hi
+    obtain ⟨n, hg⟩ := hnode i hi
+    rw [hexact i n hg]; rfl
+  have hids' : s'.ids = s.ids := by rw [hinv.ids_eq, presentIds_of_cov hcov, hids]
+  refine ⟨hids', ?_⟩
+  intro i hi
+  obtain ⟨n, hg⟩ := hnode i hi
+  refine ⟨n, hg, ?_⟩
+  have hk : i ∈ keys s'.nodes := by rw [hinv.dom_eq, hids']; exact hi
+  have hsome := getNode_isSome_iff.mpr hk
+  cases hg' : getNode s'.nodes i with
+  | none => simp [hg'] at hsome
+  | some n' =>
+    obtain ⟨b, hb, hlay, hnb⟩ := hinv.content (i, n') (getNode_some_mem hg')
+    simp only at hb hlay hnb
+    rw [hexact i n hg] at hb
+    simp only [Option.some.injEq] at hb
+    subst hb
+    rw [missing_nil_of_cov hcov] at hnb
+    have hid : (fun l : List Nat => l.filter (fun x => !([] : List Nat).contains x)) = id := by
+      funext l; simp
+    rw [hid, List.map_id] at hnb
+    cases n'
+    simp only [blobOf] at hlay hnb
+    simp [hlay, hnb]
+
+/-- non-vacuity — the scenario itself: 1 and 2 flushed; 2 removed and the removal flushed (the metadata
+object now carries the tombstone 2; the purge deletes blob 2); 2 re-inserted; the next flush is TORN
+after its node blobs and the ids object (3 writes) — the metadata PUT never happens.  The loaded index
+holds 2 AND the stale tombstone 2; its purge deletes nothing; after the flush a second load still holds 2. -/
+def exT1 : Index :=
+  { nodes := [(2, ⟨0, [[1]]⟩), (1, ⟨0, [[2]]⟩)], ids := [2, 1], entry := (1, 0), dirty := [2, 1], version := 3,
+    savedVersion := 1, maxLayers := 16 }
+def exTD1 : Durable := applyWrites (createD 16) (wrapperWrites exT1)
+def exT2 : Index := (remove (afterFlush exT1) 2 (1, 0) (fun _ _ l => l)).1
+def exTD2 : Durable := applyWrites exTD1 (wrapperWrites exT2)
+def exT3 : Index := (insertAbs (afterFlush exT2) 2 ⟨0, [[1]]⟩ [(1, ⟨0, [[2]]⟩)] (1, 0) true).1
+def exTDtorn : Durable := applyWrites exTD2 ((wrapperWrites exT3).take 3)
+
+example : (wrapperWrites exT2).map (fun w => match w with | .del i => some i | _ => none) = [none, none, none, some 2] := by
+  decide
+example : (getBlob exTD2.blobs 2).isNone = true := by decide
+example : (load exTDtorn (0, 0)).toOption.map (fun s => (s.ids, s.removed, purgeWrites s)) = some ([2, 1], [2], []) := by
+  rfl
+example : ((load exTDtorn (0, 0)).toOption.bind (fun s =>
+    (load (applyWrites exTDtorn (wrapperWrites s)) (0, 0)).toOption.map (fun s' => (s'.ids, s'.removed)))) =
+    some ([2, 1], [2]) := by rfl
+
 /-! ### non-vacuity of the persistence theorems -/
 
 /-- durable state left by the creation flush of an empty index -/
